@@ -119,15 +119,20 @@ impl<'a> Builder<'a> {
         match ignored {
             None => kids.extend(self.args(func.args().items().collect())),
             Some((ignore_pos, nameds)) => {
-                let (dead, alive): (Vec<_>, Vec<_>) = func.args().items().partition(|a| match a {
-                    Arg::Pos(_) => ignore_pos,
-                    Arg::Named(n) => nameds.contains(&n.name().as_str()),
-                    Arg::Spread(_) => false,
-                });
-                for d in &dead {
-                    kids.push(TN::Tok(self.rng(d.span()), K_UNL));
+                // 3103238 (F34): the arguments stay in text order — a dead one is one Unlintable token, a live one goes
+                // through parse_args on its own
+                for a in func.args().items() {
+                    let dead = match &a {
+                        Arg::Pos(_) => ignore_pos,
+                        Arg::Named(n) => nameds.contains(&n.name().as_str()),
+                        Arg::Spread(_) => false,
+                    };
+                    if dead {
+                        kids.push(TN::Tok(self.rng(a.span()), K_UNL));
+                    } else {
+                        kids.extend(self.args(vec![a]));
+                    }
                 }
-                kids.extend(self.args(alive));
             }
         }
         TN::Node(r, kids)
@@ -188,18 +193,21 @@ impl<'a> Builder<'a> {
             }
             Expr::DestructAssign(d) => TN::Node(r, vec![self.expr(d.value())]),
             Expr::Set(s) => {
+                // 3103238: target, args, condition (source order)
                 let mut v = vec![self.expr(s.target())];
+                v.extend(self.args(s.args().items().collect()));
                 if let Some(c) = s.condition() {
                     v.push(self.expr(c));
                 }
-                v.extend(self.args(s.args().items().collect()));
                 TN::Node(r, v)
             }
             Expr::Show(s) => {
-                let mut v = vec![self.expr(s.transform())];
+                // 3103238: selector, then transform (source order)
+                let mut v = vec![];
                 if let Some(c) = s.selector() {
                     v.push(self.expr(c));
                 }
+                v.push(self.expr(s.transform()));
                 TN::Node(r, v)
             }
             Expr::Contextual(c) => TN::Node(r, vec![self.expr(c.body())]),
